@@ -22,6 +22,9 @@ def get_static_file(path, static_files):
     return value is None.
     """
     extra_path = ''
+    if '..' in path.split('/'):
+        # never step outside of the mapped directory
+        return None
     if path in static_files:
         f = static_files[path]
     else:
